@@ -222,6 +222,14 @@ func (c *Channel) JoinPresence(ctx context.Context, p stanza.Presence, opt ...Op
 	}
 	p.To = c.addr
 
+	// Drop the hand-off entry of an earlier call that returned without being
+	// answered by a self-presence (error reply, canceled context): it would
+	// block this call before its request is even sent.
+	select {
+	case <-c.join:
+	default:
+	}
+
 	conf := config{}
 	for _, o := range opt {
 		o(&conf)
